@@ -241,6 +241,11 @@ func C20(c *runner.Cfg) *report.Result {
 				cc.style = 0 // the first channel stays open: its handler may be the shutdown initiator
 			}
 			x.chans.Store(cc.id, cc)
+			if closeInit.Load() {
+				// the handler of channel 0 may already have initiated the shutdown (initiator 2) before this
+				// channel was registered with the monitor: markAll could not see it
+				cc.mayEnd.Store(true)
+			}
 			chans = append(chans, cc)
 			ch, st := conn.Channel(noCtx)
 			if !st.OK() {
